@@ -202,6 +202,12 @@ def run(spec):
                 continue
             if len(alts | {str(b)}) > 1:
                 rec.ev('c08:fresh_processes_disagree_among_themselves')
+            if q[0].startswith('complete') and _union_receiver_mechanism(mine.get('ok'), theirs.get('ok')):
+                # the mechanism of C16's listed finding (which definition stands for an attribute name
+                # shared by several values of the receiver depends on object addresses): the fresh
+                # process is not a unique oracle for such an entry; charged to C16, not to the history
+                rec.ev('c08:difference_of_the_listed_C16_union_receiver_mechanism_not_charged')
+                continue
             rec.violate('c08:history_dependent:' + q[0],
                         'after %d edits (%s mode) %s at %s:%s differs from a fresh process: %s'
                         % (i, mode, q[0], q[1], q[2], _diff(mine.get('ok'), theirs.get('ok'))),
@@ -216,6 +222,18 @@ def run(spec):
     if incon:
         res['inconclusive'] = sorted(set(incon))
     return res
+
+
+def _union_receiver_mechanism(a, b):
+    """Same completion names in the same order; the entries that differ do not point into the case's
+    own files on either side (a stale definition of the edited buffer would)."""
+    from vf.props.c16 import _same_names_other_definitions
+    if not _same_names_other_definitions(a, b):
+        return False
+    for x, y in zip(a, b):
+        if x != y and any(str(e.get('module_path') or '').startswith('<case>') for e in (x, y)):
+            return False
+    return True
 
 
 def _diff(a, b):
